@@ -55,6 +55,8 @@ def correspondence(ctx, violations, known_hits):
     real = dbgcommon.cli_cross(ctx, specs, violations, limit=(60 if ctx.tier == "quick" else 1500))
     r["evaluations"] += real.get("sessions", 0)
     real["shared_stdin"] = dbgcommon.cli_shared_stream(ctx, violations, n=(24 if ctx.tier == "quick" else 400))
+    if ctx.tier != "quick":
+        real["very_long_run"] = very_long_run(ctx, violations)
     ctx.cleanup()
     return dbgcommon.coverage(r,
         "programs (loops, nested JSR/RET, CALL/RETS recursion, push/pop, self-modifying, ending in each exception, HALT in the "
@@ -63,6 +65,33 @@ def correspondence(ctx, violations, known_hits):
         "invalid arguments, ended by quit or end of input; each session vs the model AND vs the implementation's own plain run "
         "(final registers, PC, CC, all memory, program output, remaining input, exit status)", profiles,
         direct_comparisons=direct, direct_mismatches=bad, real_binary_without_hooks=real)
+
+
+def very_long_run(ctx, violations):
+    """Thorough tier only (about ten minutes of machine time): a terminating program that executes more than 2^32
+    instructions, plain and under the debugger with one `continue` - every counter the debugger keeps per instruction is
+    driven past 32 bits.  Same exit status and output required."""
+    import os, subprocess, concurrent.futures
+    import clicommon
+    exe = ctx.cli()
+    d = clicommon.fresh_dir(ctx, "c09long")
+    open(os.path.join(d, "long32.asm"), "w").write(
+        ".orig x3000\nld r2 outer\nloop2 and r1 r1 #0\nloop1 add r1 r1 #-1\nbrnp loop1\nadd r2 r2 #-1\nbrnp loop2\nlea r0 msg\nputs\nhalt\nouter .fill x8001\nmsg .stringz \"done\"\n")
+    def go(args):
+        try:
+            p = subprocess.run([exe] + args, cwd=d, stdin=subprocess.DEVNULL, stdout=subprocess.PIPE, stderr=subprocess.PIPE, timeout=3600,
+                               env=dict(os.environ, NO_COLOR="1", RUST_BACKTRACE="0"))
+            return p.returncode, clicommon.program_output(p.stdout), p.stderr[-300:].decode("utf-8", "replace")
+        except subprocess.TimeoutExpired:
+            return -9, None, "timeout after 3600 s"
+    with concurrent.futures.ThreadPoolExecutor(2) as pool:
+        a = pool.submit(go, ["run", "long32.asm", "--minimal"]); b = pool.submit(go, ["debug", "long32.asm", "--minimal", "--command", "continue"])
+        plain, dbg = a.result(), b.result()
+    ok = plain[0] == dbg[0] == 0 and plain[1] == dbg[1]
+    if not ok:
+        violations.append({"kind": "very-long-run", "program": "nested countdown, 2^32 + 196,613 instructions, then PUTS \"done\"", "script": "continue (then end of input)",
+                           "plain": list(plain), "debugged": list(dbg)})
+    return {"instructions": "more than 2^32", "plain_exit": plain[0], "debugged_exit": dbg[0], "equal": ok}
 
 
 def replay(ctx, payload):
